@@ -166,7 +166,12 @@ def check(case, rec=None):
                     a, b = ei.copy(), ej.copy()
                 t = properties.pks_table()
                 t.ipk = np.array([0, n])
-                t.rc = np.array([a, b, np.ones(len(a), np.int64)])
+                # the pair table as any integer array (the library's own is int64; files and callers may differ)
+                rcdt = [np.int64, np.int64, np.int32, np.intp, np.uint32, np.uint64, np.uint16][
+                    (case["seed"] + nt + int(shuffle)) % 7]
+                if rcdt is np.uint16 and n >= 65535:
+                    rcdt = np.uint32
+                t.rc = np.array([a, b, np.ones(len(a), np.int64)]).astype(rcdt)
                 t.pk_props = pk.copy()
                 ok, cc = guard(t.find_uniq)
                 name = "find_uniq(numba, threads=%d%s)" % (nt, ", shuffled" if shuffle else "")
@@ -189,7 +194,12 @@ def check(case, rec=None):
                 if fails:
                     break
                 # merged properties
-                ok, m = guard(t.pk2dmerge, omega, dty, sf)
+                # per-frame tables in any memory layout: they are addressed by flat frame number (C order)
+                lay = (case["seed"] // 7 + nt) % 4
+                om_l = np.asfortranarray(omega) if lay & 1 else omega
+                dty_l = dty.T.copy().T if lay & 2 else dty               # a transposed view
+                sf_l = np.asfortranarray(sf) if (sf is not None and lay >= 2) else sf
+                ok, m = guard(t.pk2dmerge, om_l, dty_l, sf_l)
                 if not ok:
                     fails.append(exc_failure("pk2dmerge", m))
                     break
